@@ -45,7 +45,7 @@ fn run_case(scripts: &[SinkScript], ops: &[String]) -> (String, Result<(), Strin
     let mut got: Vec<Vec<u32>> = vec![vec![]; n];
     let mut panicked = false;
     for op in ops {
-        let start = log.lock().unwrap().events.len();
+        let start = log.lock().unwrap_or_else(|e| e.into_inner()).events.len();
         let res = catch(|| {
             let mut p = Pin::new(&mut f);
             match op.chars().next().unwrap() {
@@ -56,7 +56,7 @@ fn run_case(scripts: &[SinkScript], ops: &[String]) -> (String, Result<(), Strin
                 _ => panic!("bad op"),
             }
         });
-        let evs: Vec<Ev<u32>> = log.lock().unwrap().events[start..].to_vec();
+        let evs: Vec<Ev<u32>> = log.lock().unwrap_or_else(|e| e.into_inner()).events[start..].to_vec();
         let r = match &res { Ok(r) => r.to_string(), Err(_) => { panicked = true; "PANIC".to_string() } };
         segs.push(format!("{op}:{}->{r}", events_text(&evs)));
         // ---- monitor (C08 at sink level): only a sink that answered Err leaves; the others are untouched
